@@ -27,6 +27,7 @@ Unit syntax: ordinary Verus text, copied verbatim, interleaved with directives:
      //@afterloop <n>             following lines go right after the closing '}' of the n-th loop
      //@loopend <n>               following lines go at the end of the n-th loop's body (before its closing '}')
      //@bodystart                 following lines go right after the body's opening '{'
+     //@loop? / //@afterloop? / //@loopend? / //@before? / //@after?   optional variants: dropped when the target is absent
      //@before <n> "<substr>"     (a substr starting with ^ matches the n-th line that *starts* with the rest) following lines go before the line containing the n-th occurrence of substr
      //@after  <n> "<substr>"     ... after the *statement line* containing it
   //@end
@@ -418,6 +419,13 @@ def weave(unit_path, repo, verif_root, vacuity=False):
                 elif d == "spec":
                     blk, i = _read_block(lines, i)
                     opts["spec"] += blk
+                elif d.startswith("loop? ") or d.startswith("afterloop? ") or d.startswith("loopend? "):
+                    # optional variants: if the function has fewer loops, the annotation is dropped (the proof then has
+                    # to stand without it, or fail) instead of the anchor being reported lost
+                    kind_, n_ = d.split("? ")
+                    blk, i = _read_block(lines, i)
+                    opts[{"loop": "loops", "afterloop": "afterloops", "loopend": "loopends"}[kind_]][int(n_.strip())] = blk
+                    opts.setdefault("optional_loops", set()).add(int(n_.strip()))
                 elif d.startswith("loop "):
                     blk, i = _read_block(lines, i)
                     opts["loops"][int(d[5:].strip())] = blk
@@ -430,12 +438,12 @@ def weave(unit_path, repo, verif_root, vacuity=False):
                 elif d.startswith("loopend "):
                     blk, i = _read_block(lines, i)
                     opts["loopends"][int(d[8:].strip())] = blk
-                elif d.startswith("before ") or d.startswith("after "):
-                    mt = re.match(r'(before|after)\s+(\d+)\s+"(.*)"\s*$', d)
+                elif d.startswith("before ") or d.startswith("after ") or d.startswith("before? ") or d.startswith("after? "):
+                    mt = re.match(r'(before|after)(\?)?\s+(\d+)\s+"(.*)"\s*$', d)
                     if not mt:
                         raise LostAnchor("%s:%d: bad anchor directive" % (unit_path, i))
                     blk, i = _read_block(lines, i)
-                    opts["anchors"].append((mt.group(1), int(mt.group(2)), mt.group(3).replace('\\"', '"'), blk))
+                    opts["anchors"].append((mt.group(1), int(mt.group(3)), mt.group(4).replace('\\"', '"'), blk, bool(mt.group(2))))
                 else:
                     raise LostAnchor("%s:%d: unknown directive %s" % (unit_path, i, d))
             opts["vacuity"] = vacuity
@@ -568,6 +576,8 @@ def _do_extract_impl(repo, relfile, selector, opts, sources, log, extracted, len
     if not is_fn:
         if opts["spec"] or opts["loops"] or opts["anchors"] or opts["ret"]:
             raise LostAnchor("%s: fn-only directives on a non-fn item" % name)
+        for va in opts.get("vattrs", []):
+            chunks.append(Chunk("#[verifier::%s]" % va, origin("attr")))
         chunks.append(Chunk(attr_prefix + text, origin("item")))
         return chunks
     sig, body = fn_parts(text)
@@ -604,23 +614,33 @@ def _do_extract_impl(repo, relfile, selector, opts, sources, log, extracted, len
     if opts["loops"] or opts["afterloops"] or opts["loopends"]:
         loops = find_loops(body, mb)
         for n, blk in opts["loopends"].items():
+            if (n < 1 or n > len(loops)) and n in opts.get("optional_loops", ()):
+                continue
             if n < 1 or n > len(loops):
                 raise LostAnchor("%s %s: loop %d not found (%d loops)" % (where, name, n, len(loops)))
             inserts.append((match_close(mb, loops[n - 1][1]), "\n" + "\n".join(blk) + "\n", "loopend%d" % n))
         for n, blk in opts["afterloops"].items():
+            if (n < 1 or n > len(loops)) and n in opts.get("optional_loops", ()):
+                continue
             if n < 1 or n > len(loops):
                 raise LostAnchor("%s %s: loop %d not found (%d loops)" % (where, name, n, len(loops)))
             inserts.append((match_close(mb, loops[n - 1][1]) + 1, "\n" + "\n".join(blk) + "\n", "afterloop%d" % n))
         for n, blk in opts["loops"].items():
+            if (n < 1 or n > len(loops)) and n in opts.get("optional_loops", ()):
+                continue
             if n < 1 or n > len(loops):
                 raise LostAnchor("%s %s: loop %d not found (%d loops)" % (where, name, n, len(loops)))
             inserts.append((loops[n - 1][1], "\n" + "\n".join(blk) + "\n", "loop%d" % n))
         rec["loops_in_source"] = len(loops)
     if opts.get("bodystart"):
         inserts.append((1, "\n" + "\n".join(opts["bodystart"]) + "\n", "bodystart"))
-    for kind, n, sub, blk in opts["anchors"]:
+    for kind, n, sub, blk, optional_ in opts["anchors"]:
         pos, k = -1, 0
         start = 0
+        if optional_:
+            cnt = sum(1 for lm in re.finditer(r"(?m)^([ \t]*)(.*)$", body) if lm.group(2).startswith(sub[1:])) if sub.startswith("^") else body.count(sub)
+            if cnt < n:
+                continue
         if sub.startswith("^"):
             # n-th line whose text (leading blanks stripped) starts with the given prefix
             pref = sub[1:]
